@@ -819,15 +819,41 @@ func callGraphJSON(src, path string) (string, *syntax.Ast, error) {
 	if err != nil {
 		return "", nil, err
 	}
-	g, gerr, p := safeCallGraph(ast)
-	if p != nil {
-		return "<panic>", ast, nil
+	once := func() string {
+		g, gerr, p := safeCallGraph(ast)
+		if p != nil {
+			return "<panic>"
+		}
+		if gerr != nil {
+			return "<error: " + gerr.Error() + ">"
+		}
+		j, _ := jsonMarshal(g)
+		return j
 	}
-	if gerr != nil {
-		return "<error: " + gerr.Error() + ">", ast, nil
+	j := once()
+	// Resolution itself is not always repeatable (C10's business: a
+	// pipeline with two instances, one of them mapped, may resolve a merge
+	// over either instance's stage; known findings under C10 and C01): an
+	// edit cannot be judged against a graph that differs from itself.
+	for i := 0; i < 3; i++ {
+		if once() != j {
+			panic(unstableGraph{})
+		}
 	}
-	j, _ := jsonMarshal(g)
 	return j, ast, nil
+}
+
+// unstableGraph: raised by callGraphJSON, turns the case into a counted skip.
+type unstableGraph struct{}
+
+func skipUnstableGraph() {
+	if p := recover(); p != nil {
+		if _, ok := p.(unstableGraph); ok {
+			stats.Count("C19", "call_graph_not_repeatable_skipped", 1)
+			return
+		}
+		panic(p)
+	}
 }
 
 // TestC19Refactor: rename edits keep the program compiling and leave the
@@ -855,6 +881,7 @@ func TestC19Refactor(t *testing.T) {
 		return
 	}
 	rapid.Check(t, func(t *rapid.T) {
+		defer skipUnstableGraph()
 		prog := mrogen.GenProgram(t, c19Cfg())
 		// parameter names that are prefixes of one another (o / o_tot): an
 		// edit of one must leave the other alone
@@ -1279,6 +1306,7 @@ func TestC19Combined(t *testing.T) {
 	}
 	path := filepath.Join(root, "c19c.mro")
 	rapid.Check(t, func(t *rapid.T) {
+		defer skipUnstableGraph()
 		prog := mrogen.GenProgram(t, c19Cfg())
 		src := prog.Source(nil)
 		if _, _, err := callGraphJSON(src, path); err != nil {
